@@ -246,6 +246,75 @@ Lemma log_resp_mid s1 r who rc0 code out : log (resp_mid s1 r who rc0 code out) 
 Proof. unfold resp_mid, deactivate. sproj. destruct (get r (reqs s1)); reflexivity. Qed.
 
 (* ------------------------------------------------------------------ *)
+(* debits: calm events mention no request and are no debit; nodebit events are no debit *)
+
+Definition is_debit (e : Event) : bool := match e with EvDebit _ _ _ => true | _ => false end.
+Definition is_any_issue (e : Event) : bool := match e with EvIssue _ _ _ _ => true | _ => false end.
+Definition calm (e : Event) : Prop := ev_rid e = None /\ is_debit e = false.
+Definition nodebit (e : Event) : Prop := is_debit e = false.
+(* neither a debit nor an issue *)
+Definition plain (e : Event) : Prop := is_debit e = false /\ is_any_issue e = false.
+
+Lemma calm_quiet e : calm e -> quiet e.
+Proof. now intros (H & _). Qed.
+Lemma calm_nodebit e : calm e -> nodebit e.
+Proof. now intros (_ & H). Qed.
+Lemma plain_nodebit e : plain e -> nodebit e.
+Proof. now intros (H & _). Qed.
+
+Definition Cm (s s' : State) : Prop := ext calm (log s) (log s').
+Definition ND (s s' : State) : Prop := ext nodebit (log s) (log s').
+
+Lemma Cm_refl s : Cm s s.
+Proof. apply ext_refl. Qed.
+Lemma Cm_trans s1 s2 s3 : Cm s1 s2 -> Cm s2 s3 -> Cm s1 s3.
+Proof. apply ext_trans. Qed.
+Lemma Cm_Q s s' : Cm s s' -> Q s s'.
+Proof. apply ext_weaken, calm_quiet. Qed.
+Lemma Cm_ND s s' : Cm s s' -> ND s s'.
+Proof. apply ext_weaken, calm_nodebit. Qed.
+Lemma ND_refl s : ND s s.
+Proof. apply ext_refl. Qed.
+Lemma ND_trans s1 s2 s3 : ND s1 s2 -> ND s2 s3 -> ND s1 s3.
+Proof. apply ext_trans. Qed.
+Lemma ND_same s s' : log s' = log s -> ND s s'.
+Proof. unfold ND. intros ->. apply ext_refl. Qed.
+
+Ltac cm_auto := unfold Cm, ND; ext_auto.
+
+Lemma Cm_emit e s : calm e -> Cm s (emit e s).
+Proof. intros He. unfold Cm. sproj. apply ext_cons; [assumption|apply ext_refl]. Qed.
+
+Lemma Cm_transfer a b amt s s1 : transfer a b amt s = Some s1 -> Cm s s1.
+Proof. intros E. rewrite (transfer_frame _ _ _ _ _ E). cm_auto. Qed.
+
+Lemma Cm_pay_deposit s k o amt s1 : pay_deposit s k o amt = Ok s1 -> Cm s s1.
+Proof.
+  intros E. apply pay_deposit_inv in E. destruct E as (s0 & Et & ->).
+  apply Cm_transfer in Et. cm_auto.
+Qed.
+
+Lemma Cm_callback s c : Cm s (callback s c).
+Proof. unfold callback. destruct (get c (ctxs s)); cm_auto. Qed.
+
+Lemma Cm_complete_batch s c rc : Cm s (fst (complete_batch s c rc)).
+Proof.
+  unfold complete_batch. cbn [fst]. destruct (c_mod rc =? 0); [cm_auto|].
+  pose proof (Cm_callback s c) as H. cm_auto.
+Qed.
+
+Lemma Cm_clean_batch s c n : Cm s (clean_batch s c n).
+Proof. unfold clean_batch. cm_auto. Qed.
+
+Lemma Cm_resp_finish sm c rc : Cm sm (resp_finish sm c rc).
+Proof.
+  unfold resp_finish.
+  destruct (c_bresp (setc_bresp rc (c_bresp rc + 1)) =? c_breq (setc_bresp rc (c_bresp rc + 1))).
+  - pose proof (Cm_complete_batch sm c (setc_bresp rc (c_bresp rc + 1))) as H. cm_auto.
+  - cm_auto.
+Qed.
+
+(* ------------------------------------------------------------------ *)
 (* the invariant *)
 
 Section Shapes.
